@@ -186,6 +186,16 @@ def gen_cases(ctx, avoid):
     for text, err, what, sexp in faults.trigger_cases(rng, n_table):
         expect = None if err is None else ("reject" if err else "accept")
         cases.append(Case(text, expect, "trigger", rule="trigger:" + what if err else None, where=what, template=sexp))
+    # impl blocks of the harness host's three-method template: accepted exactly when the implemented methods are the
+    # required ones (every subset, under four capability selections)
+    from props.C14 import template_programs
+    need = {"c1, c2, c3": {"m1", "m2", "m3"}, "all": {"m1", "m2", "m3"}, "c3, c1": {"m1", "m3"}, "c2": {"m2"}}
+    for mods, _ in template_programs():
+        text = mods["main"]
+        caps = text.split("with { ")[1].split(" }")[0]
+        have = {m for m in ("m1", "m2", "m3", "zz") if f"fn {m}(" in text}
+        ok = have == need[caps]
+        cases.append(Case(text, "accept" if ok else "reject", "template-trio", rule=None if ok else "template:methods", where=caps))
     cases.append(Case("fn f() { }\n", "accept", "nomain", nomain=True))
     # assorted snippets, well- and ill-typed: oracle "no panic, table total", tie with the model
     for text in faults.soup_cases(rng, n_table * 2):
